@@ -6,7 +6,7 @@ def U(unit, obligations, tier="quick", timeout=600):
 
 
 FLOAT_IDEAL = "idealised-real float semantics (machine arithmetic treated as mathematical) where stated per unit"
-WF_GAME = "wf_game (infoset indices in range, weight vectors as long as child lists) as established by Game::from_root: assumed: C11 decides the rule checks of from_root per node only, not the tables it builds"
+WF_GAME = "wf_game (infoset indices in range, weight vectors as long as child lists) as established by Game::from_root: assumed (C11 decides the rule checks per node and that compact::Builder hands out dense indices 0,1,2,.. in first-seen order; that the final tables are built in that order -- IndexMap::into_iter -- and the chance-infoset OptBuilder are not covered)"
 
 PROPS = {
     "C01": dict(
@@ -229,6 +229,7 @@ PROPS = {
                                        "C11.V.init_recurse.distinct_actions", "C11.V.init_recurse.records_infoset", "C11.V.init_recurse.recall_bookkeeping",
                                        "C11.V.init_recurse.empty_chance", "C11.V.init_recurse.single_outcome_elided", "C11.V.init_recurse.empty_player", "C11.V.init_recurse.player_dispatch",
                                        "C11.V.init_recurse.single_action_same", "C11.V.init_recurse.single_action_recorded_once"]),
+               U("c11_compact", ["C11.V.compact.entry_index", "C11.V.compact.insert_returns_index", "C11.V.compact.get_returns_index", "C11.V.compact.dense_preserved", "C11.V.compact.new_dense"]),
                U("c11_constructors", ["C11.V.constructors.chance_infoset", "C11.V.constructors.chance_node", "C11.V.constructors.player_builder", "C11.V.constructors.player_infoset", "C11.V.constructors.num_actions"])],
         kani_functions=[],
         trusted_base=["uninterpreted float semantics + IEEE classification facts (Kani harness ieee_classification)",
